@@ -51,6 +51,8 @@ Clauses(ev) ==
     CASE ev.e = "step"   -> StepViol(ev)
       [] ev.e = "mstep"  -> Slots(ev.post) \cup ModelOpViol(ev.pre, ev.a, UidW(ev.pre, ev.post), ev.post)
       [] ev.e = "sort"   -> SortEvViol(ev)
+      [] ev.e = "reloaddef" -> IF ev.rc # 0 THEN {"DefaultSaveLoadsAgain"}
+                               ELSE V(N(ev.post) <= ev.before, "DefaultSaveAddsNoBlock") \cup V(HeaderMirror(ev.post), "HeaderMirror")
       [] ev.e = "reload" -> IF ev.rc # 0 THEN {"ReloadFails"} ELSE ReloadViol(ev.pre, ev.post)
       [] ev.e = "fault"  -> V(ev.load = 0, "StillLoads") \cup
                             (IF ev.load # 0 THEN {} ELSE V(ev.save = 0, "SaveReturns") \cup V(ev.reload = 0, "SavedFileLoads"))
